@@ -268,6 +268,9 @@ def engine_check(pid, fams, tier_, maxruns, level_note="", props=None, extra_cov
         sres = stream_validate(files, wd) if stream else None
         dres = design_mc(wd, sd, **design) if design else None
         ires = impl_conformance(h1files, wd) if impl else None
+        if ires and (ires["errors"] or ires["dynamic"]["errors"]):
+            # the conformance replay itself did not run to the end: a broken check, not a disagreement
+            raise Broken("Impl conformance (ImplTrace / ImplDynTrace) failed to run: %s" % str((ires["errors"] + ires["dynamic"]["errors"])[0])[:1500])
         known = {k["id"]: k for k in load_known_findings() if k.get("status") == "open" and pid in k.get("properties", [])}
         found, known_hits = [], {}
         stats = Counter()
